@@ -58,6 +58,13 @@ type Site struct {
 	Gen   bool   `json:"generated"`
 }
 
+type GoSite struct {
+	File     string   `json:"file"`
+	Line     int      `json:"line"`
+	Func     string   `json:"func"`
+	Captures []string `json:"captures"`
+}
+
 type Other struct {
 	Kind string `json:"kind"` // time.Now | math/rand | go | select
 	File string `json:"file"`
@@ -283,6 +290,7 @@ func main() {
 	}
 	var sites []Site
 	var others []Other
+	var goSites []GoSite
 	var order []*fn
 	for x := range reach {
 		order = append(order, x)
@@ -325,6 +333,10 @@ func main() {
 					}
 				}
 			case *ast.GoStmt:
+				{
+					f, l := rel(s.Pos())
+					goSites = append(goSites, GoSite{File: f, Line: l, Func: fname, Captures: captures(info, s)})
+				}
 				f, l := rel(s.Pos())
 				others = append(others, Other{"go", f, l, fname, truncate(src(s.Call.Fun), 60)})
 			case *ast.SelectStmt:
@@ -349,9 +361,15 @@ func main() {
 		}
 		return others[i].Line < others[j].Line
 	})
-	writeLean(outPath, sites, others)
+	sort.Slice(goSites, func(i, j int) bool {
+		if goSites[i].File != goSites[j].File {
+			return goSites[i].File < goSites[j].File
+		}
+		return goSites[i].Line < goSites[j].Line
+	})
+	writeLean(outPath, sites, others, goSites)
 	if len(os.Args) > 3 {
-		b, _ := json.MarshalIndent(map[string]interface{}{"sites": sites, "others": others}, "", " ")
+		b, _ := json.MarshalIndent(map[string]interface{}{"sites": sites, "others": others, "go_sites": goSites}, "", " ")
 		os.WriteFile(os.Args[3], b, 0o644)
 	}
 	cnt := map[string]int{}
@@ -849,6 +867,14 @@ func sortedAfter(x *fn, loop *ast.RangeStmt, tgt string) bool {
 
 func q(s string) string { return strconv.Quote(s) }
 
+func leanStrList(xs []string) string {
+	qs := make([]string, len(xs))
+	for i, x := range xs {
+		qs[i] = q(x)
+	}
+	return "[" + strings.Join(qs, ", ") + "]"
+}
+
 // shortFunc: the function's name without package path and receiver decoration: "(*chaincore/chain.Chain).updateState" -> "updateState"
 func shortFunc(f string) string {
 	if i := strings.LastIndex(f, "."); i >= 0 {
@@ -865,7 +891,112 @@ func bytesLit(s string) string {
 	return "[" + strings.Join(parts, ", ") + "]"
 }
 
-func writeLean(path string, sites []Site, others []Other) {
+// captures: the variables a goroutine shares with the function that starts it, with the way the goroutine uses each.
+// `go func(params) { body }(args)`: identifiers of the body that denote variables declared outside the literal (and not at
+// package level); `go f(args)`: the call itself and its arguments.
+func captures(info *types.Info, g *ast.GoStmt) []string {
+	set := map[string]bool{}
+	lit, ok := g.Call.Fun.(*ast.FuncLit)
+	if !ok {
+		set["call:"+truncate(src(g.Call.Fun), 80)] = true
+		for _, a := range g.Call.Args {
+			set["arg:"+truncate(src(a), 60)] = true
+		}
+	} else {
+		shared := func(id *ast.Ident) bool {
+			v, ok := info.Uses[id].(*types.Var)
+			if !ok || v.IsField() || v.Pkg() == nil {
+				return false
+			}
+			if v.Parent() == v.Pkg().Scope() {
+				return false // package-level
+			}
+			return v.Pos() < lit.Pos() || v.Pos() > lit.End()
+		}
+		used := map[*ast.Ident]bool{}
+		mark := func(id *ast.Ident, use string) {
+			if id != nil && shared(id) {
+				set[id.Name+":"+use] = true
+				used[id] = true
+			}
+		}
+		root := func(e ast.Expr) *ast.Ident {
+			for {
+				switch y := e.(type) {
+				case *ast.SelectorExpr:
+					e = y.X
+				case *ast.IndexExpr:
+					e = y.X
+				case *ast.StarExpr:
+					e = y.X
+				case *ast.ParenExpr:
+					e = y.X
+				case *ast.Ident:
+					return y
+				default:
+					return nil
+				}
+			}
+		}
+		ast.Inspect(lit.Body, func(n ast.Node) bool {
+			switch t := n.(type) {
+			case *ast.AssignStmt:
+				for _, l := range t.Lhs {
+					switch y := l.(type) {
+					case *ast.IndexExpr:
+						mark(root(y.X), "index-write["+src(y.Index)+"]")
+					case *ast.Ident:
+						mark(y, "write")
+					default:
+						mark(root(l), "write")
+					}
+				}
+			case *ast.IncDecStmt:
+				mark(root(t.X), "write")
+			case *ast.SendStmt:
+				mark(root(t.Chan), "send")
+			case *ast.UnaryExpr:
+				if t.Op == token.ARROW {
+					mark(root(t.X), "recv")
+				}
+			case *ast.CallExpr:
+				if sel, ok := t.Fun.(*ast.SelectorExpr); ok {
+					if x, ok := sel.X.(*ast.Ident); ok && (x.Name == "atomic") {
+						for _, a := range t.Args {
+							if u, ok := a.(*ast.UnaryExpr); ok && u.Op == token.AND {
+								mark(root(u.X), "atomic."+sel.Sel.Name)
+							}
+						}
+					} else if id := root(sel.X); id != nil && shared(id) {
+						if _, isVar := info.Uses[id].(*types.Var); isVar && src(sel.X) == id.Name {
+							mark(id, "call "+sel.Sel.Name)
+						}
+					}
+				}
+			}
+			return true
+		})
+		ast.Inspect(lit.Body, func(n ast.Node) bool {
+			if u, ok := n.(*ast.UnaryExpr); ok && u.Op == token.AND {
+				if id := root(u.X); id != nil && !used[id] {
+					mark(id, "addr")
+				}
+			}
+			if id, ok := n.(*ast.Ident); ok && !used[id] && shared(id) {
+				set[id.Name+":read"] = true
+			}
+			return true
+		})
+	}
+	var res []string
+	for k := range set {
+		res = append(res, k)
+	}
+	sort.Strings(res)
+	return res
+}
+
+func writeLean(path string, sites []Site, others []Other, goSites []GoSite) {
 	var b strings.Builder
 	b.WriteString("import ZChain.Model.DetTypes\n")
 	b.WriteString("/-! GENERATED by harness/cmd/xc06 from the Go sources — do not edit. Regenerated on every `./check C06`.\n")
@@ -888,6 +1019,19 @@ func writeLean(path string, sites []Site, others []Other) {
 			sep = ""
 		}
 		fmt.Fprintf(&b, "  ⟨%s, %s, %d, %s, %s⟩%s\n", q(o.Kind), q(o.File), o.Line, q(o.Func), bytesLit(o.Kind+"@"+o.File+":"+shortFunc(o.Func)), sep)
+	}
+	b.WriteString("]\n\n/-- every `go` statement in those functions with what its closure shares with the spawning function -/\n")
+	b.WriteString("def goSites : List GoSite := [\n")
+	for i, g := range goSites {
+		sep := ","
+		if i == len(goSites)-1 {
+			sep = ""
+		}
+		ck := make([]string, len(g.Captures))
+		for j, c := range g.Captures {
+			ck[j] = bytesLit(c)
+		}
+		fmt.Fprintf(&b, "  ⟨%s, %d, %s, %s, %s, [%s]⟩%s\n", q(g.File), g.Line, q(g.Func), bytesLit(g.File+":"+shortFunc(g.Func)), leanStrList(g.Captures), strings.Join(ck, ", "), sep)
 	}
 	b.WriteString("]\n\nend ZChain.Generated.C06\n")
 	if err := os.WriteFile(path, []byte(b.String()), 0o644); err != nil {
